@@ -1,6 +1,8 @@
 import Anndb.Model.WalKeys
 import Anndb.Proofs.WalFlush
 import Anndb.Proofs.WalEntries
+import Anndb.Proofs.WalBelow
+import Anndb.Proofs.WalBoth
 import Anndb.Proofs.CodecLemmas
 import Anndb.Generated
 /-!
@@ -29,8 +31,18 @@ engine ties to the real `badgerWAL` *and* whose specification `Mem` it ties to e
 * `delete_group_leaves_nothing` — `DeleteGroup` leaves none of the group's keys and a reopen
   afterwards is a fresh store (with `isolation_batch`: and touches no other group's keys).
 
-Not covered by a theorem (tied by the `wal` engine only): a `Save` that carries a snapshot *and*
-entries (etcd/raft does not produce one) and batches that start below the first index.
+* `store_refines_memorystorage_any_start` — the same refinement for histories whose batches may
+  start below the first index (entries compacted away meanwhile): the store drops what
+  `MemoryStorage.Append` drops.
+
+* `store_refines_memorystorage_every_save` — the same again for histories that also contain a
+  `Save` carrying a received snapshot *and* the entries that follow it (one `Ready` of etcd/raft can
+  hold both): it equals the save of the snapshot followed by the save of the entries (`save_seq`),
+  and refines `ApplySnapshot`, `Append`, `SetHardState`.
+
+Every call shape etcd/raft's `Ready` loop can produce is covered by a theorem; shapes it cannot
+produce (a snapshot with entries that do not start right after it, a batch that leaves a gap) are
+exercised by the `wal` engine only, where `MemoryStorage` itself panics or misbehaves.
 -/
 namespace Anndb.C06
 open Anndb.Wal Anndb.WalKeys Anndb.Codec
@@ -149,6 +161,19 @@ theorem store_refines_memorystorage (ops : List WOp)
     ∃ w', runW Wal.fresh ops = some w' ∧ WF w' ∧ abs w' = m' :=
   run_refines ops Wal.fresh Mem.init m' wf_fresh.1 wf_fresh.2 hes hm
 
+/-- **C06 (storage contract, batches from anywhere below or inside the log).** -/
+theorem store_refines_memorystorage_any_start (ops : List WOp)
+    (hes : ∀ hs es, WOp.append hs es ∈ ops → Contig es) (m' : Mem)
+    (hm : runMA Mem.init ops = some m') :
+    ∃ w', runW Wal.fresh ops = some w' ∧ WF w' ∧ abs w' = m' :=
+  run_refines_any_start ops Wal.fresh Mem.init m' wf_fresh.1 wf_fresh.2 hes hm
+
+/-- **C06 (storage contract, every kind of `Save`).** -/
+theorem store_refines_memorystorage_every_save (ops : List WOpX)
+    (hes : ∀ op ∈ ops, Contig op.batch) (m' : Mem) (hm : runMX Mem.init ops = some m') :
+    ∃ w', runWX Wal.fresh ops = some w' ∧ WF w' ∧ abs w' = m' :=
+  run_refines_x ops Wal.fresh Mem.init m' wf_fresh.1 wf_fresh.2 hes hm
+
 /-- **C06 (reads).** -/
 theorem reads_agree (w : Wal) (h : WF w) (i : Nat) :
     (∃ w', w.firstIndex = .ok ((abs w).firstIndex, w') ∧ w'.disk = w.disk ∧ WF w') ∧
@@ -205,6 +230,33 @@ example : (runW Wal.fresh demoReads).map (fun w =>
 example : (runM Mem.init demoReads).map (fun m =>
       ((m.entries 10 14 6).toOption.map (·.map (·.index)), (m.entries 11 14 0).toOption.map (·.map (·.index))))
     = some (some [10, 11], some [11]) := by decide
+
+/-- non-vacuity of `store_refines_memorystorage_any_start`: after the compaction at 2 a batch 1..4
+arrives (entries 1 and 2 are gone: dropped), and later a batch 1..2 (entirely below: skipped) -/
+def demoBelow : List WOp :=
+  [.append ⟨1, 1, 0⟩ [⟨1, 1, 10, 1⟩, ⟨2, 1, 11, 1⟩, ⟨3, 1, 12, 1⟩],
+   .compact 2 7 99,
+   .append ⟨2, 2, 1⟩ [⟨1, 1, 10, 1⟩, ⟨2, 1, 11, 1⟩, ⟨3, 2, 13, 1⟩, ⟨4, 2, 14, 1⟩],
+   .append ⟨2, 2, 4⟩ [⟨1, 1, 10, 1⟩, ⟨2, 1, 11, 1⟩]]
+
+example : (runMA Mem.init demoBelow).map (fun m => (m.firstIndex, m.lastIndex, m.ents.map (·.term))) = some (3, 4, [1, 2, 2]) := by
+  decide
+example : runM Mem.init demoBelow = none := by decide
+example : (runW Wal.fresh demoBelow).map (fun w => w.disk.ents.map (fun e => (e.index, e.term))) = some [(2, 1), (3, 2), (4, 2)] := by
+  decide
+
+/-- non-vacuity of `store_refines_memorystorage_every_save`: a follower with entries 1..3 receives
+snapshot 9 together with entries 10, 11, reopens, appends 12 -/
+def demoBoth : List WOpX :=
+  [.base (.append ⟨1, 1, 0⟩ [⟨1, 1, 10, 1⟩, ⟨2, 1, 11, 1⟩, ⟨3, 1, 12, 1⟩]),
+   .installWith ⟨3, 0, 9⟩ ⟨9, 3, 5, 7⟩ [⟨10, 3, 16, 1⟩, ⟨11, 3, 17, 1⟩],
+   .base .reopen,
+   .base (.append ⟨3, 0, 11⟩ [⟨12, 3, 18, 1⟩])]
+
+example : (runMX Mem.init demoBoth).map (fun m => (m.firstIndex, m.lastIndex, m.snap.index, m.hs.commit)) = some (10, 12, 9, 11) := by
+  decide
+example : (runWX Wal.fresh demoBoth).map (fun w => w.disk.ents.map (·.index)) = some [9, 10, 11, 12] := by
+  decide
 
 /-- the key layout in the code is the one modelled (regenerated facts) -/
 theorem key_layout_in_code :
